@@ -294,6 +294,13 @@ def end_to_end(run, GH, ref):
             origin_ok = (obj.params['origin'] is None) if not lc else (obj.params['origin'] is not None and np.array_equal(np.asarray(obj.params['origin'], dtype=float), [-990.0, -990.0, -990.0]))
             if abs(obj.params['velz2kms'] - 1.3e5 / 2000.0) > 1e-9 or obj.params['Lbox'] != 2000.0 or not origin_ok:
                 run.violation('hod-e2e-params', dict(params={k2: repr(v) for k2, v in obj.params.items()}, **desc))
+            # the staged per-halo inputs are those the files record for that halo id (what the occupation is then computed from)
+            hid_ = np.asarray(obj.halo_data['hid'])
+            src_cols = {'hdeltac': ((hid_ * 7) % 100) / 100.0 - 0.5, 'hfenv': ((hid_ * 13) % 100) / 100.0 - 0.5, 'hshear': ((hid_ * 29) % 100) / 100.0 - 0.5, 'hmultis': 1.0 + (hid_ % 3) * 0.5}
+            for cn, ev in src_cols.items():
+                if cn in obj.halo_data and not np.allclose(np.asarray(obj.halo_data[cn], dtype=np.float64), ev, rtol=0, atol=1e-6):
+                    run.violation('hod-e2e-staged-input-not-of-this-halo', dict(column=cn, **desc))
+                    break
             exp, info = hodref.reference_catalog(ref, obj.halo_data, obj.particle_data, tracers, obj.params, flags['want_ranks'], bool(k % 2))
             if info['ambc'].any() or info['ambs'].any():
                 run.count('cases_with_ambiguous_randoms_skipped')
